@@ -112,6 +112,10 @@ class Corr(Job):
                         expected=b[i] if i < len(b) else None, actual=a[i] if i < len(a) else None, corr_only=True)
         if self.both:
             r = [l for l in rel[0] if not l.startswith("Z")]
+            # with debug assertions compiled out, behaviour is only specified up to the first `debug_assert!` the model predicts
+            k = next((i for i, l in enumerate(b) if l == "P debug"), None)
+            if k is not None:
+                r, b = r[:k], b[:k]
             ok, i, _ = compare_lines(self.mode, r, b, self.projection, self.scale)
             if not ok:
                 return dict(explanation="release build (debug assertions off) and Lean model disagree at output line %d" % i,
@@ -224,6 +228,8 @@ class Relation(Job):
         for o, xs in zip(outs, self.streams):
             if len(o) != len(xs) or any(isinstance(v, tuple) for v in o):
                 p = [v for v in o if isinstance(v, tuple)]
+                if self.params.get("domain_ok") and p and all(v[1] == "debug" for v in p):
+                    return None   # an inner output left the outer view's domain (finiteness / non-zero assertion): not this relation's business
                 return dict(explanation="implementation panicked (%s) during relation %s" % (p[:1], self.rel), expected="no panic", actual=str(p[:1]))
         f = RELATIONS[self.rel]
         r = f(self, outs)
